@@ -110,12 +110,17 @@ fn parse_k(t: &str) -> Option<K> {
 pub enum KeySpec {
     List(Vec<K>),
     Path(u32, String),
+    /// the same text handed over BY REFERENCE (`&Path<String, S>`: the `IntoKeys for &Path<T, S>` impl)
+    PathRef2F(Path<String, '/'>),
+    PathRef2E(Path<String, '.'>),
+    PathRefE9(Path<String, 'é'>),
+    PathRef1F600(Path<String, '😀'>),
     Json(JsonPath<String>),
     Packed(usize),
     Chain(Box<KeySpec>, Box<KeySpec>),
 }
 
-/// parse `L:k,k` | `P<cp>:str` | `J:str` | `Q:word` | `C[ks][ks]`; returns (spec, rest)
+/// parse `L:k,k` | `P<cp>:str` | `R<cp>:str` (by reference) | `J:str` | `Q:word` | `C[ks][ks]`; returns (spec, rest)
 pub fn parse_keyspec(s: &str) -> Option<(KeySpec, &str)> {
     if let Some(r) = s.strip_prefix("C[") {
         let (a, r) = parse_keyspec(r)?;
@@ -135,6 +140,16 @@ pub fn parse_keyspec(s: &str) -> Option<(KeySpec, &str)> {
     } else if let Some(r) = tok.strip_prefix("P") {
         let (cp, text) = r.split_once(':')?;
         KeySpec::Path(cp.parse().ok()?, dec_str(text)?)
+    } else if let Some(r) = tok.strip_prefix("R") {
+        let (cp, text) = r.split_once(':')?;
+        let text = dec_str(text)?;
+        match cp.parse::<u32>().ok()? {
+            0x2F => KeySpec::PathRef2F(Path(text)),
+            0x2E => KeySpec::PathRef2E(Path(text)),
+            0xE9 => KeySpec::PathRefE9(Path(text)),
+            0x1F600 => KeySpec::PathRef1F600(Path(text)),
+            _ => return None,
+        }
     } else if let Some(r) = tok.strip_prefix("J:") {
         KeySpec::Json(JsonPath(dec_str(r)?))
     } else if let Some(r) = tok.strip_prefix("Q:") {
@@ -164,6 +179,10 @@ impl KeySpec {
                 0x1F600 => Box::new(Path::<&str, '😀'>::from(s.as_str()).into_keys()),
                 _ => return None,
             },
+            KeySpec::PathRef2F(p) => Box::new(p.into_keys()),
+            KeySpec::PathRef2E(p) => Box::new(p.into_keys()),
+            KeySpec::PathRefE9(p) => Box::new(p.into_keys()),
+            KeySpec::PathRef1F600(p) => Box::new(p.into_keys()),
             KeySpec::Json(jp) => Box::new(jp.into_keys()),
             KeySpec::Packed(w) => Box::new(Packed::new(*w)?),
             KeySpec::Chain(a, b) => Box::new(DynKeys(a.keys()?).chain(DynKeys(b.keys()?))),
@@ -576,4 +595,37 @@ pub fn tk_ops<M: TreeKey + ?Sized>(args: &[&str]) -> String {
         ["meta"] => op_meta::<M>(),
         _ => "bad-op".into(),
     }
+}
+
+// ------------------------------------------------------------------ clones of a used iterator
+
+/// `ic <case> <root index list | -> <k>`: on the fixed type `[[[Leaf<u8>; 2]; 3]; 2]` (which is `Clone`, as
+/// `#[derive(Clone)]` on `NodeIter` demands of `M`): root the iterator, call `next()` k times, clone it, and print what the
+/// CLONE and then what the ORIGINAL still yield (`|` between them): both must be the rest of the rooted iteration
+pub fn op_iterclone(args: &[&str]) -> String {
+    type T = [[[miniconf::Leaf<u8>; 2]; 3]; 2];
+    let [root, k] = args else { return "bad-op".into() };
+    let Ok(k) = k.parse::<usize>() else { return "bad-op".into() };
+    let mut it = T::nodes::<Indices<[usize; 3]>, 3>();
+    if *root != "-" {
+        let Ok(idx) = root.split(',').map(|x| x.parse::<usize>()).collect::<Result<Vec<_>, _>>() else { return "bad-op".into() };
+        it = match it.root(idx.iter().copied()) {
+            Ok(it) => it,
+            Err(e) => return format!("rooterr {}", trav_str(&e)),
+        };
+    }
+    for _ in 0..k {
+        let _ = it.next();
+    }
+    let show = |it: NodeIter<T, Indices<[usize; 3]>, 3>| -> String {
+        it.take(50)
+            .map(|x| match x {
+                Ok((n, node)) => n.0.iter().take(node.depth()).map(|i| i.to_string()).collect::<Vec<_>>().join(","),
+                Err(d) => format!("caperr{d}"),
+            })
+            .collect::<Vec<_>>()
+            .join(";")
+    };
+    let c = it.clone();
+    format!("{}|{}", show(c), show(it))
 }
